@@ -128,6 +128,10 @@ fn ci_models(rep: &Report, kinds: &[Kind]) -> Vec<ModelDef> {
 fn run_e1(rep: &Report) -> i32 {
     let t = rep.thorough();
     let all = Kind::ALL;
+    if rep.property == "C03" {
+        // match lists of about 2^16 entries in one state
+        crate::e3::check_huge_match_lists(rep);
+    }
     if rep.property == "C14" {
         // "occurs in the span": the span is whatever the caller stated
         // through Input, by any of its constructors / setters
